@@ -26,7 +26,10 @@ def judge_call(cell, budget, o):
     if res == "err":
         if cell["m"] != "ok":
             return True
-        return budget is not None and L is not None and budget < L
+        if budget is not None and L is not None and budget < L:
+            return True
+        # the canonical encoding fits, a layout with more blocks may not: TLC decides (Trace_SerPool!CallAllowed)
+        return None if budget is not None else False
     if cell["m"] == "err":
         return False
     if budget is not None and len(o["bytes"]) > budget:
@@ -102,17 +105,22 @@ def run(tier, seed):
     events, ev_idx = [], []
     last_sess = None
     budget_rate = 1.0 if tier != "quick" else 0.35
-    for i, ((cell, budget, sess), cmd, o) in enumerate(zip(meta, cmds, obs)):
-        if rng.random() > budget_rate and sess != last_sess and i not in doubtful:
-            pass
+    # sessions holding a call that only TLC can judge come first (the number of events validated is bounded)
+    dsess = {meta[i][2] for i in doubtful}
+    order = sorted(range(len(cmds)), key=lambda i: (meta[i][2] not in dsess, i))
+    for i in order:
+        (cell, budget, sess), cmd, o = meta[i], cmds[i], obs[i]
         if sess != last_sess:
             events.append({"ev": "reset"})
             ev_idx.append(None)
             last_sess = sess
         events.append(call_event(si_of[cell["sid"]], cmd, o))
         ev_idx.append(i)
+        if isinstance(o.get("pool"), list):        # hook: buffers the real configuration keeps pooled after the call
+            events.append({"ev": "h_pool", "lens": o["pool"]})
+            ev_idx.append(i)
     # validate a bounded number of whole sessions (TLC evaluates Den + the SerImpl model per call)
-    max_events = 4000 if tier == "quick" else 40000
+    max_events = 8000 if tier == "quick" else 80000
     events, ev_idx = cut_at_session(events, ev_idx, max_events)
     scope2_path = codec.write_scope(scope2, "c14-scope2")
 
@@ -137,7 +145,7 @@ def run(tier, seed):
                 "ReuseEqFresh; two model-level mutants must be caught). Real code: seeded random sessions of 2..10 calls on ONE configuration "
                 "(cells of MC_Record incl. failing ones, sink failing after n bytes at random n, last call a must-ok probe); every call is judged "
                 "by the stateless specification; distinct_nontrivial = number of sessions.",
-        "model_pool_states": mc["distinct"], "model_transitions": mc["states"], "trace_events": len(events),
+        "pool_hook_events": sum(1 for e in events if e.get("ev") == "h_pool"), "model_pool_states": mc["distinct"], "model_transitions": mc["states"], "trace_events": len(events),
         "doubtful_bytes_checked_by_tlc": len(doubtful),
         "samples": [{"session": [cmds[j] for j in range(len(cmds)) if meta[j][2] == 1]}], "exhaustive": False,
     }
